@@ -273,6 +273,18 @@ def faults(rng, case):
                     for e in d[3]:
                         if e[0] == mc[1]:
                             e[2] = newret
+        def claim_reply_ambiguous(c):
+            # a second enum under the claim reply's simple name further out on the interface's scope chain (global scope)
+            for it in info['itfs']:
+                d = find_decl(c['file'], lambda d: d[0] == 'itf' and d[1] == [it['name']] and any(e[0] == mc[1] for e in d[3]))
+                if d:
+                    ret = next(e[2] for e in d[3] if e[0] == mc[1])
+                    if len(ret) != 1:
+                        return False
+                    place(c['file'], [], ['enum', list(ret), ['Busy', 'Ok', 'NotOk']])
+                    return None
+            return False
+        variant('mc-claim-reply-ambiguous', claim_reply_ambiguous)
         variant('mc-claim-reply-void', lambda c: claim_reply(c, ['void']))
         variant('mc-claim-reply-unresolvable', lambda c: claim_reply(c, ['NoEnumHere']))
 
